@@ -182,8 +182,10 @@ def run(run):
             outcomes[cls] = outcomes.get(cls, 0) + 1
             if not a.startswith("ok"):
                 run.nontrivial.add(q)
-    # results too large to allocate (up to 5 * 4^20 cells = 44 TB): outside the model (which would have to enumerate them) but inside
-    # the property - the call must report an error, not abort in the allocator or run for ever (defect F15, fixed by d60a9a0)
+    # results too large to allocate (up to 5 * 4^20 cells = 44 TB): outside the model (which would have to enumerate them) AND outside the
+    # property's quantifier ("calls whose honest result would exceed 4^8 cells are out of scope"): what the library does there is
+    # recorded as an observation in the evidence, never as a violation.  (It used to abort in the allocator - F15 - and reports an
+    # error since d60a9a0.)
     b0, q7 = spec.encode(0, 0, ()), spec.encode(1, 7, ())
     huge = [f"uncompact {b0} 21", f"cell_to_children {b0} 21", f"uncompact {b0},{b0} 20", "cell_to_children 0 21", f"uncompact {q7},{b0} 21",
             f"cell_to_children {q7} 21", "uncompact 0 20", f"cell_to_children {spec.encode(2, 7, (1,))} 22", "get_res0_cells"]
@@ -192,8 +194,7 @@ def run(run):
         hout = core.run_stream(hx_, huge, args=["--flush"], timeout=600, isolate=True, mem_bytes=2 << 30, per_line_timeout=120, max_hangs=2)
         for q, a in zip(huge, hout):
             run.evaluations += 1
-            if a in ("abort", "hang", "panic") or not (a.startswith("err") or a.startswith("ok")):
-                run.violation(f"[{profile} build] {q.split()[0]} did not return normally on a request whose result cannot be allocated: {a}", q, a)
+            run.extra.setdefault("huge_result_calls_observed", {})[f"{profile}: {q[:60]}"] = a[:40]
     # internal helpers (pub only for testing): the overflow-checked build must behave exactly as the model's outcome type says,
     # including the u32 doubling overflow for resolutions above 30 (correspondence only; not part of the public API the property quantifies over)
     hreq = []
@@ -207,6 +208,6 @@ def run(run):
     run.rule = ("corpus of the repaired crash inputs first, then a malformed stream over all 13 public functions: random u64, canonical ids with stray low bits, marker-only patterns with any top six bits, "
                 "top bits 60..63, aliases of the world cell, single-bit flips x i32 resolutions (small, boundary 29/30/31, extremes) x finite coordinates incl. 1e300 and sub-normals; "
                 "each line run in BOTH an overflow-checked debug build and a release build of the harness with a 2 GiB address-space limit (crash or hang = lost line, reported); "
-                "calls whose honest result exceeds 4^8 cells are steered back into scope for the model comparison, and nine requests with results of up to 44 TB are run on the implementation alone (must report an error, not abort); a sample of the stream is run again in shuffled order with immediate duplicates and rejected calls in between (answers must equal the pure model's); non-trivial = distinct requests that did not simply succeed")
+                "calls whose honest result exceeds 4^8 cells are steered back into scope for the model comparison, and nine requests with results of up to 44 TB are run on the implementation alone and their outcome is recorded (out of the property's scope: an observation, not a verdict); a sample of the stream is run again in shuffled order with immediate duplicates and rejected calls in between (answers must equal the pure model's); non-trivial = distinct requests that did not simply succeed")
     run.samples = [{"request": q[:200], "impl": a[:120]} for q, a in list(zip(reqs, impl))[:4]] + [{"request": reqs[i][:200], "impl": impl[i][:120]} for i in rng.sample(range(len(reqs)), 4)]
     run.extra["outcome_distribution"] = dict(sorted(outcomes.items()))
